@@ -11,10 +11,18 @@
    * what is refused.  visitTermpredicate raises CompilerError unless the visited term is an Atom or a
      Functor (`callable_shape`).  visitClause raises unless the head name matches
      [A-Za-z_][A-Za-z0-9_]* ; a head that is true/fail/! makes visitProgram raise (AttributeError).
-     Two kinds of term objects are built by the visitor without complaint and make the COMPILER raise
-     as soon as they occur in a clause: the value None for `name/arity`, and a Functor whose name is a
-     NumeralTerm (`1(a)`).  The model has no AST for them: v_term returns None for the term (the
-     counter still advances), a clause containing one has no AST, front fails.
+     Two kinds of term objects are built by the visitor without complaint and make the COMPILER raise:
+     - the value None for `name/arity`: compile_function_body reads `.variables` of the whole clause (head and
+       body, dead code included), which raises AttributeError on None wherever it occurs in the clause.  The
+       model has no AST for it: v_term returns None for the term (the counter still advances), a clause
+       containing one has no AST, front fails;
+     - a Functor whose name is a NumeralTerm (`1(a)`): its `.variables` work, and only compile_expression /
+       compile_predicate raise (`.name.value`) when they are actually CALLED on it -- which does not happen for
+       goals that compile_body drops as dead code (the continuation of `fail`: `p :- fail, 1(a).` compiles).
+       The model therefore keeps such a functor in the AST under the name `\` ++ digits (a backslash can never
+       occur in the name of an atom of a source text, unquoteString removes them all; the only other names with a
+       backslash are the operators \= and \==), and the compiler model
+       (Lang/FrontCompile.compile_front) refuses exactly when that name reaches the intermediate code.
    * directives are visited -- they can raise, and their `_` advance the counter -- and dropped. *)
 From Coq Require Import List NArith Arith Bool.
 Import ListNotations.
@@ -36,7 +44,7 @@ Definition atom_name (a : catom) : option str :=
   match a with
   | A_ATOM t => Some t
   | A_STRING t => Some (unquote t)
-  | A_NUMERAL _ => None
+  | A_NUMERAL t => Some (92%N :: t)       (* Functor(NumeralTerm(t), ..): see above *)
   end.
 
 Definition v_var (v : str) (k : nat) : sterm * nat :=
